@@ -177,7 +177,7 @@ func (m *Machine) global(g *ssa.Global) *Cell {
 		return c
 	}
 	// packages of the module under test get their real initialisers run (once per path)
-	if g.Pkg != nil && m.inModule(g.Pkg) && !m.initDone[g.Pkg] {
+	if g.Pkg != nil && (m.inModule(g.Pkg) || initWhitelist[g.Pkg.Pkg.Path()]) && !m.initDone[g.Pkg] {
 		m.runInit(g.Pkg)
 		if c, ok := m.globals[g]; ok {
 			return c
@@ -199,6 +199,10 @@ func (m *Machine) global(g *ssa.Global) *Cell {
 	m.globals[g] = c
 	return c
 }
+
+// standard-library packages whose package-level tables (asciiSpace, base64 alphabets, ...) are needed by
+// code that is interpreted from source: their own initialiser runs like the module's (imports' do not)
+var initWhitelist = map[string]bool{"bytes": true, "strings": true, "encoding/pem": true, "encoding/base64": true, "encoding/hex": true}
 
 func (m *Machine) runInit(p *ssa.Package) {
 	m.initDone[p] = true
